@@ -30,7 +30,7 @@ PROP = {
         "name": "seq", "pkg": "htlcswitch", "test": "TestVerifC07",
         "files": ["htlcswitch/c07_test.go"],
         "shards": {"quick": 8, "thorough": 16},
-        "watchdog": {"quick": 600, "thorough": 3000},
+        "watchdog": {"quick": 900, "thorough": 5400},
         "floors": {"quick": {"ops": 30000, "model_compare_evals": 50000, "fork_restarts": 15000,
                              "fork_second_restarts": 7000, "fork_trimmed_keystones": 5000,
                              "fork_purged_circuits": 2500, "fork_kept_by_resolution": 400,
@@ -42,7 +42,7 @@ PROP = {
         "porcupine": True,
         "race": {"quick": True, "thorough": True},
         "shards": {"quick": 8, "thorough": 16},
-        "watchdog": {"quick": 600, "thorough": 3000},
+        "watchdog": {"quick": 900, "thorough": 5400},
         "gomaxprocs": 4,
         "floors": {"quick": {"histories_linearizable": 800, "conc_ops": 19000}},
     }],
